@@ -26,6 +26,21 @@ pub fn donation_witness() -> ((u128, u128, u128), [u128; 5], Vec<Op>) {
     ])
 }
 
+/// round 8: inside an outstanding loan the borrower takes and repays a second loan and then deposits the outer loan's funds; the
+/// deposit must be refused whatever the inner loan did to the vault's loan bookkeeping (here the whole call aborts; with the
+/// deposit wrapped in a Try only the deposit does)
+pub fn deposit_after_inner_loan(wrapped: bool, inner_first: bool) -> ((u128, u128, u128), [u128; 5], Vec<Op>) {
+    let p = DEC / 100;
+    let inner = Act::Loan { amount: u(100_000), script: vec![Act::RepayQ { neg: false, delta: u(0) }] };
+    let dep = if wrapped { Act::Try { script: vec![Act::Deposit { amount: u(300_000) }] } } else { Act::Deposit { amount: u(300_000) } };
+    let body = if inner_first { vec![inner, dep, Act::RepayQ { neg: false, delta: u(0) }] } else { vec![dep, inner, Act::RepayQ { neg: false, delta: u(0) }] };
+    ((p, p, 0), [0, 4_000_000, 5_000_000, 0, 5_000_000], vec![
+        Op::Deposit { u: 6, amount: u(1_500_000), sent: u(1_500_000) },
+        Op::Run { script: vec![Act::Loan { amount: u(400_000), script: body }] },
+        Op::Withdraw { u: 6, amount: u(10_000) },
+    ])
+}
+
 pub fn run(args: &Args) {
     let mut out = Out::new(&args.out);
     out.rule = "one case = one history (8..16 operations drawn online from the current state) on a freshly deployed factory+vault+router+borrower; \
@@ -51,6 +66,10 @@ pub fn run(args: &Args) {
         run_history(&mut out, "C05", "vault", &mut rng, Mix::SharePrice, cw20, f, fu, Source::Fixed(ops));
         let (f, fu, ops) = donation_witness();
         run_history(&mut out, "C05", "vault", &mut rng, Mix::SharePrice, cw20, f, fu, Source::Fixed(ops));
+        for (wr, inf) in [(false, true), (true, true), (true, false)] {
+            let (f, fu, ops) = deposit_after_inner_loan(wr, inf);
+            run_history(&mut out, "C05", "vault", &mut rng, Mix::SharePrice, cw20, f, fu, Source::Fixed(ops));
+        }
     }
     for i in 0..args.n {
         let cw20 = i % 2 == 1;
